@@ -991,7 +991,20 @@ func (fr *frame) execRange(st *State, x *ast.RangeStmt, label string) []Outcome 
 	if ls.decr == nil {
 		// range loops terminate: implicit measure n - cursor
 	}
+	// the names of enclosing range loops (keys$k, pos$k, dom$k, range$k) stay visible in nested loops
+	for k, v := range fr.outerExtras {
+		if _, own := ls.extra[k]; !own {
+			ls.extra[k] = v
+		}
+	}
+	saved := fr.outerExtras
+	merged := map[string]*Value{}
+	for k, v := range ls.extra {
+		merged[k] = v
+	}
+	fr.outerExtras = merged
 	outs := fr.loopCore(st, x, label, scan, ls, cond, prepare, x.Body, wrappedPost, extraHavoc)
+	fr.outerExtras = saved
 	return outs
 }
 
